@@ -450,13 +450,15 @@ fn pfold_left(op: BinOperator, kind: u8, which: u8) {
 stubbed! { pub fn t_fold_right_a() { each_const!(pfold_right; Add, Subtract, Multiply); kani::cover!(true); } }
 stubbed! { pub fn t_fold_right_b() { each_const!(pfold_right; Divide, Modulo, Pow); kani::cover!(true); } }
 stubbed! { pub fn t_fold_right_c() { each_const!(pfold_right; LShift, RShift, BitwiseAnd); kani::cover!(true); } }
-stubbed! { #[cfg(feature = "verif_thorough")] pub fn t_fold_right_d() { each_const!(pfold_right; BitwiseOr, Xor, Equal, NotEqual); kani::cover!(true); } }
-stubbed! { #[cfg(feature = "verif_thorough")] pub fn t_fold_right_e() { each_const!(pfold_right; Greater, GreaterOrEqual, Lower, LowerOrEqual); kani::cover!(true); } }
+// groups d / e (| ^ == != and the four comparisons with one constant operand): out of memory (14 GB) or 870-920 s under load in
+// round three - not reliable enough for a registered tier; two-constant folds of these operators are decided by t_fold_const_*
+stubbed! { #[cfg(feature = "verif_experimental")] pub fn t_fold_right_d() { each_const!(pfold_right; BitwiseOr, Xor, Equal, NotEqual); kani::cover!(true); } }
+stubbed! { #[cfg(feature = "verif_experimental")] pub fn t_fold_right_e() { each_const!(pfold_right; Greater, GreaterOrEqual, Lower, LowerOrEqual); kani::cover!(true); } }
 stubbed! { pub fn t_fold_left_a() { each_const!(pfold_left; Add, Subtract, Multiply); kani::cover!(true); } }
 stubbed! { #[cfg(feature = "verif_thorough")] pub fn t_fold_left_b() { each_const!(pfold_left; Divide, Modulo, Pow); kani::cover!(true); } }
 stubbed! { #[cfg(feature = "verif_thorough")] pub fn t_fold_left_c() { each_const!(pfold_left; LShift, RShift, BitwiseAnd); kani::cover!(true); } }
-stubbed! { #[cfg(feature = "verif_thorough")] pub fn t_fold_left_d() { each_const!(pfold_left; BitwiseOr, Xor, Equal, NotEqual); kani::cover!(true); } }
-stubbed! { #[cfg(feature = "verif_thorough")] pub fn t_fold_left_e() { each_const!(pfold_left; Greater, GreaterOrEqual, Lower, LowerOrEqual); kani::cover!(true); } }
+stubbed! { #[cfg(feature = "verif_experimental")] pub fn t_fold_left_d() { each_const!(pfold_left; BitwiseOr, Xor, Equal, NotEqual); kani::cover!(true); } }
+stubbed! { #[cfg(feature = "verif_experimental")] pub fn t_fold_left_e() { each_const!(pfold_left; Greater, GreaterOrEqual, Lower, LowerOrEqual); kani::cover!(true); } }
 
 /// compound assignment: yields and stores kernel(old content, value); a failing update leaves the
 /// cell unchanged
